@@ -131,6 +131,15 @@ theorem play_quant_schedules_there (st : St) (q p : Num) (g : ℚ)
     ∀ s' : TC, WF s' → secs2beats_F s' (beats2secs_F s' g) = g := by
   refine ⟨?_, ?_, fun s' hw => secs_beats s' hw g⟩ <;> simp only [step, h]
 
+/-- Another routine on the same clock, started at beat `b0` and yielding `d` each time, is scheduled for
+    the beats `b0 + k·d`; whatever proper map is in force when it is woken (the first routine may have
+    changed tempo, beats or meter in between), the second it is woken at reads back exactly that beat. -/
+theorem other_routine_keeps_its_beat (b0 d : ℚ) (n k : ℕ) (hk : k < n) (s' : TC) (hw : WF s') :
+    (tickBeats b0 d n)[k]? = some (b0 + (k : ℚ) * d) ∧
+    secs2beats_F s' (beats2secs_F s' (b0 + (k : ℚ) * d)) = b0 + (k : ℚ) * d := by
+  refine ⟨?_, secs_beats s' hw _⟩
+  simp [tickBeats, hk]
+
 /-! ## bars -/
 
 /-- Bar/beat conversions are mutually inverse. -/
